@@ -19,9 +19,9 @@ struct Msg {
     enc_fail: bool, // the encoder itself reports an error for this item
 }
 
-fn any_msg<const L: usize>() -> Msg {
+fn any_msg<const L: usize, const MODE: u32>() -> Msg {
     // the length is concrete per harness instance (DESIGN P3: symbolic lengths into buffers are ~15x slower)
-    Msg { len: L, data: kani::any(), enc_fail: kani::any() }
+    Msg { len: L, data: kani::any(), enc_fail: if MODE & 2 != 0 { kani::any() } else { false } }
 }
 
 struct CopyEnc {
@@ -51,13 +51,21 @@ enum Ev {
     Fail(u8), // source error; payload picks the code
 }
 
-fn any_ev<const L: usize>() -> Ev {
+// MODE bits: 1 = source errors possible, 2 = encoder errors possible, 4 = a saved error may be pending,
+//            8 = symbolic send limit, 16 = symbolic yield threshold
+fn any_ev<const L: usize, const MODE: u32>() -> Ev {
     let k: u8 = kani::any();
     match k % 4 {
         0 => Ev::Pending,
         1 => Ev::End,
-        2 => Ev::Item(any_msg::<L>()),
-        _ => Ev::Fail(kani::any()),
+        2 => Ev::Item(any_msg::<L, MODE>()),
+        _ => {
+            if MODE & 1 != 0 {
+                Ev::Fail(kani::any())
+            } else {
+                Ev::Pending
+            }
+        }
     }
 }
 
@@ -209,20 +217,20 @@ fn ref_poll<const P: usize, const K: usize>(
 // ------------------------------------------------------------------------------------------------
 // E2 / L3 / W1: one poll of the real EncodedBytes::poll_next from an arbitrary state, differential vs. the reference
 // ------------------------------------------------------------------------------------------------
-fn enc_step<const P: usize, const K: usize, const L: usize>() {
+fn enc_step<const P: usize, const K: usize, const L: usize, const MODE: u32>() {
     let pre: [u8; P] = kani::any();
-    let max: Option<usize> = kani::any();
-    let threshold: usize = kani::any();
-    let has_err: bool = kani::any();
+    let max: Option<usize> = if MODE & 8 != 0 { kani::any() } else { None };
+    let threshold: usize = if MODE & 16 != 0 { kani::any() } else { 32 * 1024 };
+    let has_err: bool = if MODE & 4 != 0 { kani::any() } else { false };
     let err_tag: u8 = kani::any();
     let mut ev = [Ev::Pending; K];
     let mut i = 0;
     while i < K {
-        ev[i] = any_ev::<L>();
+        ev[i] = any_ev::<L, MODE>();
         i += 1;
     }
 
-    let mut buf = BytesMut::new();
+    let mut buf = if MODE & 64 != 0 { BytesMut::with_capacity(64) } else { BytesMut::new() };
     buf.put_slice(&pre);
     let mut eb = EncodedBytes {
         source: Script::<K> { ev, pos: 0, polls: 0 }.fuse(),
@@ -261,7 +269,7 @@ fn enc_step<const P: usize, const K: usize, const L: usize>() {
             assert!(chunk.len() > 0, "C01: empty chunk");
             assert!(chunk.len() == expect.chunk.n, "C01/C06: chunk length differs from the reference framing");
             let mut j = 0;
-            while j < ACC {
+            while j < ACC && MODE & 32 == 0 {
                 if j < chunk.len() {
                     assert!(chunk[j] == expect.chunk.b[j], "C01/C03: chunk bytes differ from the reference framing");
                 }
@@ -289,38 +297,81 @@ fn enc_step<const P: usize, const K: usize, const L: usize>() {
 #[kani::proof]
 #[kani::unwind(22)]
 #[kani::stub(alloc::fmt::format, fmt_stub)]
-fn enc_step_p0_k1_l1() {
-    enc_step::<0, 1, 1>()
+fn enc_step_p0_k1_l1_m0() {
+    enc_step::<0, 1, 1, 0>()
 }
 #[kani::proof]
 #[kani::unwind(22)]
 #[kani::stub(alloc::fmt::format, fmt_stub)]
-fn enc_step_p0_k1_l0() {
-    enc_step::<0, 1, 0>()
+fn enc_step_p0_k1_l1_m24() {
+    enc_step::<0, 1, 1, 24>()
 }
 #[kani::proof]
 #[kani::unwind(22)]
 #[kani::stub(alloc::fmt::format, fmt_stub)]
-fn enc_step_p3_k1_l2() {
-    enc_step::<3, 1, 2>()
+fn enc_step_p0_k1_l1_m1() {
+    enc_step::<0, 1, 1, 1>()
 }
 #[kani::proof]
 #[kani::unwind(22)]
 #[kani::stub(alloc::fmt::format, fmt_stub)]
-fn enc_step_p0_k2_l1() {
-    enc_step::<0, 2, 1>()
+fn enc_step_p0_k1_l1_m2() {
+    enc_step::<0, 1, 1, 2>()
 }
 #[kani::proof]
 #[kani::unwind(22)]
 #[kani::stub(alloc::fmt::format, fmt_stub)]
-fn enc_step_p6_k2_l2() {
-    enc_step::<6, 2, 2>()
+fn enc_step_p0_k1_l1_m4() {
+    enc_step::<0, 1, 1, 4>()
 }
 #[kani::proof]
 #[kani::unwind(22)]
 #[kani::stub(alloc::fmt::format, fmt_stub)]
-fn enc_step_p5_k2_l0() {
-    enc_step::<5, 2, 0>()
+fn enc_step_p0_k1_l1_m31() {
+    enc_step::<0, 1, 1, 31>()
+}
+#[kani::proof]
+#[kani::unwind(22)]
+#[kani::stub(alloc::fmt::format, fmt_stub)]
+fn enc_step_p3_k1_l2_m31() {
+    enc_step::<3, 1, 2, 31>()
+}
+#[kani::proof]
+#[kani::unwind(22)]
+#[kani::stub(alloc::fmt::format, fmt_stub)]
+fn enc_step_p0_k2_l1_m31() {
+    enc_step::<0, 2, 1, 31>()
+}
+#[kani::proof]
+#[kani::unwind(22)]
+#[kani::stub(alloc::fmt::format, fmt_stub)]
+fn enc_step_p6_k2_l2_m31() {
+    enc_step::<6, 2, 2, 31>()
+}
+#[kani::proof]
+#[kani::unwind(22)]
+#[kani::stub(alloc::fmt::format, fmt_stub)]
+fn enc_step_p5_k2_l0_m31() {
+    enc_step::<5, 2, 0, 31>()
+}
+
+#[kani::proof]
+#[kani::unwind(22)]
+#[kani::stub(alloc::fmt::format, fmt_stub)]
+fn enc_step_p0_k1_l1_m32() {
+    enc_step::<0, 1, 1, 32>()
+}
+#[kani::proof]
+#[kani::unwind(22)]
+#[kani::stub(alloc::fmt::format, fmt_stub)]
+fn enc_step_p0_k1_l1_m64() {
+    enc_step::<0, 1, 1, 64>()
+}
+#[kani::proof]
+#[kani::unwind(22)]
+#[kani::stub(alloc::fmt::format, fmt_stub)]
+fn enc_step_p0_k1_l1_m96() {
+    enc_step::<0, 1, 1, 96>()
 }
 
 // ------------------------------------------------------------------------------------------------
